@@ -158,6 +158,27 @@ def run(rep, tier, seed, replay):
                     for t in known:
                         rep.known_hits[t] += 1
 
+    # ---- the same pattern obtained another way (into_owned, FromStr): depth() judged like the glob's when it says or
+    # runs something else (the any-of-one routes are covered by the combinators above)
+    if replay is None:
+        subjects = [sj for sj in lib.conversion_routes(P, exprs, built) if sj["route"] in ("into-owned", "from-str")]
+        todo3 = []
+        for sj in subjects:
+            i = P.impl[sj["k"]]
+            rep.stats["route-depth:%s:%s" % (sj["route"], "same" if sj["depth"] == i.get("depth") and sj["pattern"] == i["pattern"] else "differs")] += 1
+            if (sj["depth"] != i.get("depth") or sj["pattern"] != i["pattern"]) and not sj["depth"].startswith("panic") and sj["root"] in ("always", "never"):
+                todo3.append(sj)
+        for sj, line in zip(todo3, h.ask(["N %s %s" % (hexs(sj["pattern"]), "1" if sj["root"] == "always" else "0") for sj in todo3])):
+            if not line.startswith("counts"):
+                continue
+            counts = [int(x) for x in line[len("counts "):].strip("[]").split(",") if x != ""]
+            outside = [c for c in counts if not contains(sj["depth"], c)]
+            i = P.impl[sj["k"]]
+            borrowed_ok = all(contains(i.get("depth", "unb"), c) for c in counts) if not i.get("depth", "").startswith("panic") else True
+            if outside and borrowed_ok:
+                rep.violation("oracle", "the glob obtained by %s reports depth %s but its program matches a path of %d components (the glob built by Glob::new reports %s)" % (
+                    sj["route"], sj["depth"], outside[0], i.get("depth")), {"expr": sj["expr"], "route": sj["route"], "components": outside[0]}, impl=sj["depth"])
+
     def ask(wit):
         b = lib.parse_impl_build(h.ask(["B " + hexs(wit["expr"])])[0])
         a = h.ask(["M %s %s" % (hexs(wit["expr"]), hexs(wit["path"]))])[0].startswith("match")
